@@ -326,20 +326,6 @@ def sequences(depth):
     return allseq
 
 
-def failure_cases(base_cases, base_out):
-    """every single failure point of every base session: (call index, operation index) for each
-    operation the failure-free run attempts"""
-    out = []
-    for c, o in zip(base_cases, base_out):
-        rs = parse(o, len(c.meta["calls"])) if o else None
-        if rs is None:
-            continue
-        for ci, r in enumerate(rs):
-            for oi in range(r["nops"]):
-                out.append(mk(c.meta["calls"], [(ci, oi)]))
-    return out
-
-
 def extra_cases(ck):
     rng = Rng(ck.seed)
     quick = ck.tier == "quick"
@@ -433,38 +419,65 @@ def main():
         print("predicate:", predicate(cases[0], impl[0]) or "holds")
         ck.compare(cases, impl, model, predicate, nontrivial, family="replay")
         ck.finish()
-    base = [mk(s) for s in sequences(depth)]
-    base_out = ck.run_impl(binary, [c.line for c in base], jobs=8)
-    fcases = failure_cases(base, base_out)
+    # Sessions are kept as (calls, plan) pairs and turned into cases batch by batch: the thorough tier has
+    # several 10^5 cases and must stay small in memory.
+    kinds = {}
+
+    def failure_specs(sessions):
+        """every single failure point of every session: one (calls, plan) per operation the failure-free
+        run of the real code attempts"""
+        specs = []
+        for i in range(0, len(sessions), 50000):
+            part = sessions[i:i + 50000]
+            outs = ck.run_impl(binary, [mk(s).line for s in part], jobs=8)
+            for calls, o in zip(part, outs):
+                rs = parse(o, len(calls)) if o else None
+                for ci, r in enumerate(rs or []):
+                    specs.extend((calls, ((ci, oi),)) for oi in range(r["nops"]))
+        return specs
+
+    def process(specs, family):
+        seen = set()
+        for i in range(0, len(specs), 50000):
+            cases = []
+            for calls, plan in specs[i:i + 50000]:
+                c = mk(calls, plan)
+                if c.line not in seen:
+                    seen.add(c.line)
+                    cases.append(c)
+            impl = ck.run_impl(binary, [c.line for c in cases], jobs=16)
+            model = ck.run_model_terms(["Camera"], [c.term for c in cases], per_eval=400)
+            ck.compare(cases, impl, model, predicate, nontrivial, family=family)
+            for c, o in zip(cases, impl):
+                rs = parse(o, len(c.meta["calls"])) if o else None
+                for r in rs or []:
+                    kinds[r["res"]] = kinds.get(r["res"], 0) + 1
+
+    base = sequences(depth)
+    fspecs = failure_specs(base)
     ck.dist["exhaustive_sessions"] = len(base)
-    ck.dist["exhaustive_single_failure_cases"] = len(fcases)
-    deep, dcases = [], []
+    ck.dist["exhaustive_single_failure_cases"] = len(fspecs)
+    ck.phase("generate")
+    process([(s, ()) for s in base] + fspecs, "exhaustive depth<=%d x single failure" % depth)
+    del fspecs
+    ck.phase("exhaustive")
+    other = []
     if not quick:
         rng = Rng(ck.seed + 7)
         d7 = sequences(7)[len(base):]
-        deep = [mk(d7[i]) for i in sorted({rng.below(len(d7)) for _ in range(70000)})]
-        deep_out = ck.run_impl(binary, [c.line for c in deep], jobs=16)
-        allf = failure_cases(deep, deep_out)
+        deep = [d7[i] for i in sorted({rng.below(len(d7)) for _ in range(70000)})]
+        del d7
+        allf = failure_specs(deep)
         keep = 40000
-        dcases = [allf[i] for i in sorted({rng.below(len(allf)) for _ in range(keep)})] if len(allf) > keep else allf
+        dspecs = [allf[i] for i in sorted({rng.below(len(allf)) for _ in range(keep)})] if len(allf) > keep else allf
         ck.dist["depth7_sessions_sampled"] = len(deep)
-        ck.dist["depth7_failure_cases_sampled"] = len(dcases)
-    extra = extra_cases(ck)
-    cases = base + fcases + deep + dcases + extra
-    seen, uniq = set(), []
-    for c in cases:
-        if c.line not in seen:
-            seen.add(c.line)
-            uniq.append(c)
-    cases = uniq
-    ck.phase("generate")
-    impl = ck.run_impl(binary, [c.line for c in cases], jobs=16)
-    ck.phase("impl")
-    model = ck.run_model_terms(["Camera"], [c.term for c in cases], per_eval=400)
-    ck.phase("model")
-    nb = len(base) + len(fcases)
-    ck.compare(cases[:nb], impl[:nb], model[:nb], predicate, nontrivial, family="exhaustive depth<=%d x single failure" % depth)
-    ck.compare(cases[nb:], impl[nb:], model[nb:], predicate, nontrivial, family="deep / variants / random multi-failure")
+        ck.dist["depth7_failure_cases_sampled"] = len(dspecs)
+        other = [(s, ()) for s in deep] + dspecs
+        del allf
+    other += [(c.meta["calls"], tuple(c.meta["plan"])) for c in extra_cases(ck)]
+    process(other, "deep / variants / random multi-failure")
+    del other
+    ck.phase("deep+random")
     # end-to-end: the same sessions (failure-free, handles opened first) on Camera<ControlHandle, StreamHandle>
     # over the scripted U3V device of rust/shim
     ubin, ulog = ck.cargo_build("h_u3v")
@@ -481,11 +494,6 @@ def main():
         ck.compare(ecases, eimpl, eview, predicate, nontrivial,
                    family="end-to-end Camera<ControlHandle, StreamHandle> over the scripted device")
         ck.phase("end-to-end")
-    kinds = {}
-    for c, o in zip(cases, impl):
-        rs = parse(o, len(c.meta["calls"])) if o else None
-        for r in rs or []:
-            kinds[r["res"]] = kinds.get(r["res"], 0) + 1
     ck.dist["call_results_by_class"] = kinds
     ck.exhaustive = False   # the theorems are for unbounded sessions; the correspondence enumerates depth <= depth only
     ck.dist["exhaustive_bound"] = "sessions over 6 calls up to depth %d x every single failure point" % depth
